@@ -12,6 +12,8 @@ package main
 //   armed: the engine armed a timer on entering the target state (hook event `arm`)
 //   moved: the final message was accepted
 // Only pct <= 40 (no timeout may fire) and pct >= 250 (it must fire) are generated: wall-clock.
+// A run in which the harness was too slow to move inside the window is repeated with a longer
+// timeout (x4, up to four attempts), then reported as `skip-overload` (never judged).
 
 import (
 	"fmt"
@@ -25,7 +27,7 @@ import (
 const g3TmoTarget = 150 * time.Millisecond
 
 func init() {
-	register(&Prop{ID: "C14", Gen: genC14, Run: runC14, Timeout: 30 * time.Second})
+	register(&Prop{ID: "C14", Gen: genC14, Run: runC14, Timeout: 20 * time.Minute})
 }
 
 // g3Drive sends the symbols in lock-step (the side holding agency in the engine's current
@@ -50,7 +52,7 @@ func g3Drive(fx *g3Fixture, role protocol.ProtocolRole, syms []*g3Sample, base i
 			break
 		}
 		want := base + i + 1
-		fx.waitFor(3*time.Second, func(ev []g3Event, _ []uint8) bool {
+		fx.waitFor(g3Deadline, func(ev []g3Event, _ []uint8) bool {
 			n := 0
 			for _, e := range ev {
 				if (e.Kind == "state" && e.C == 0) || e.Kind == "transerr" || e.Kind == "error" {
@@ -109,7 +111,7 @@ func runC14(op string) string {
 	if last == nil {
 		return "bad-op"
 	}
-	// find the target state and its timeout on a detached instance
+	// find the target state on a detached instance
 	pr, done := p.buildDetached(role)
 	cur := pr.VerifInitialState()
 	for _, s := range path {
@@ -120,52 +122,63 @@ func runC14(op string) string {
 		}
 		cur = ns
 	}
-	e := pr.VerifStateMap()[cur]
 	done()
-	tmo := e.Timeout
-	if e.TimeoutFunc != nil {
-		tmo = 0
-		for i := 0; i < 200; i++ {
-			if d := e.TimeoutFunc(); d > tmo {
-				tmo = d
-			}
+	// The verdict must not depend on how loaded the machine is: a run in which the harness
+	// itself was too slow to act inside the intended window is not judged but repeated with a
+	// four times longer (scaled) timeout; after four attempts the op is skipped.
+	T := g3TmoTarget
+	for attempt := 0; attempt < 4; attempt++ {
+		res, valid := c14Once(p, role, pct, path, last, cur, T)
+		if valid {
+			return res
 		}
+		T *= 4
 	}
-	scale := int64(1000)
-	if tmo > 0 {
-		scale = int64(tmo / g3TmoTarget)
-		if scale < 1 {
-			scale = 1
-		}
-	}
-	// every OTHER state's timer must not disturb the approach: the path is driven quickly, but
-	// a much shorter scaled timeout elsewhere could fire first; keep them at >= the target
+	return "skip-overload"
+}
+
+// c14Once runs the scenario with the target state's timeout set to T.
+func c14Once(p *g3Proto, role protocol.ProtocolRole, pct int, path []*g3Sample, last *g3Sample, target protocol.State, T time.Duration) (string, bool) {
 	fx := newG3Fixture(p, role, g3FixOpts{stateMap: func(sm protocol.StateMap) protocol.StateMap {
 		for s, en := range sm {
-			scaled := func(d time.Duration) time.Duration {
-				if d == 0 {
-					return 0
+			if s == target {
+				// scale the target state's timeout to T (a TimeoutFunc keeps its relative spread, max = T)
+				if en.TimeoutFunc != nil {
+					orig := en.TimeoutFunc
+					var mx time.Duration
+					for i := 0; i < 400; i++ {
+						if d := orig(); d > mx {
+							mx = d
+						}
+					}
+					en.TimeoutFunc = func() time.Duration {
+						d := time.Duration(float64(orig()) / float64(mx) * float64(T))
+						if d > T {
+							d = T
+						}
+						if d < time.Millisecond {
+							d = time.Millisecond
+						}
+						return d
+					}
+				} else if en.Timeout > 0 {
+					en.Timeout = T
 				}
-				x := d / time.Duration(scale)
-				if s != cur && x < 2*time.Second {
-					x = 2 * time.Second
+			} else {
+				// timers of the states passed on the way must not interfere with the approach
+				if en.Timeout > 0 && en.Timeout < time.Hour {
+					en.Timeout = time.Hour
 				}
-				if x < time.Millisecond {
-					x = time.Millisecond
+				if en.TimeoutFunc != nil {
+					en.TimeoutFunc = func() time.Duration { return time.Hour }
 				}
-				return x
-			}
-			en.Timeout = scaled(en.Timeout)
-			if en.TimeoutFunc != nil {
-				orig := en.TimeoutFunc
-				en.TimeoutFunc = func() time.Duration { return scaled(orig()) }
 			}
 			sm[s] = en
 		}
 		return sm
 	}})
 	defer fx.close()
-	fx.waitFor(2*time.Second, func(ev []g3Event, _ []uint8) bool {
+	fx.waitFor(g3Deadline, func(ev []g3Event, _ []uint8) bool {
 		for _, e := range ev {
 			if e.Kind == "state" {
 				return true
@@ -174,67 +187,120 @@ func runC14(op string) string {
 		return false
 	})
 	if g3Drive(fx, role, path, 0) != len(path) {
-		return "approach-failed"
+		return "approach-failed", true
 	}
-	// was a timer armed on entering the target state?
-	ev, _ := fx.snapshot()
-	armed := 0
-	lastState := -1
-	for i, x := range ev {
-		if x.Kind == "state" {
-			lastState = i
+	lastStateIdx := func(ev []g3Event) int {
+		k := -1
+		for i, x := range ev {
+			if x.Kind == "state" {
+				k = i
+			}
 		}
+		return k
 	}
-	for i, x := range ev {
-		if x.Kind == "arm" && i > lastState {
-			armed = 1
-		}
-	}
-	// give the arm event (logged right after the state event) a moment
-	if armed == 0 {
-		fx.waitFor(5*time.Millisecond, func(ev []g3Event, _ []uint8) bool {
-			for i, x := range ev {
-				if x.Kind == "arm" && i > lastState {
+	// The `arm` event is logged by stateLoop right after the `state` event; the loop that asked
+	// for the transition logs its next event (`seg` for a sent message, `handle` for a received
+	// one) only after stateLoop has finished setState, so waiting for that event makes the
+	// observation of `arm` independent of scheduling.  (Nothing follows the start-up setState.)
+	if len(path) > 0 {
+		fx.waitFor(g3Deadline, func(ev []g3Event, _ []uint8) bool {
+			k := lastStateIdx(ev)
+			for i := k + 1; i < len(ev); i++ {
+				if ev[i].Kind == "seg" || ev[i].Kind == "handle" || ev[i].Kind == "error" {
 					return true
 				}
 			}
 			return false
 		})
-		ev, _ = fx.snapshot()
-		for i, x := range ev {
-			if x.Kind == "arm" && i > lastState {
-				armed = 1
-			}
+	}
+	ev, _ := fx.snapshot()
+	entryIdx := lastStateIdx(ev)
+	t0 := ev[entryIdx].At
+	armedNow := false
+	// the timeout the engine actually armed (a TimeoutFunc draws it from a range)
+	armedDur := T
+	for i := entryIdx + 1; i < len(ev); i++ {
+		if ev[i].Kind == "arm" {
+			armedNow = true
+			armedDur = time.Duration(ev[i].B)
 		}
 	}
-	stall := g3TmoTarget * time.Duration(pct) / 100
-	// wait for the stall, but return early if the engine reports an error
-	fx.waitFor(stall, func(ev []g3Event, _ []uint8) bool {
+	hasErr := func(ev []g3Event, _ []uint8) bool {
 		for _, x := range ev {
 			if x.Kind == "error" {
 				return true
 			}
 		}
 		return false
-	})
+	}
+	stall := armedDur * time.Duration(pct) / 100
+	if pct >= 200 && armedNow {
+		// the engine says it armed a timer: wait for it to fire, however slow the machine is
+		fx.waitFor(g3Deadline, hasErr)
+	} else {
+		fx.waitFor(stall, hasErr)
+	}
 	moved := 0
 	if fx.count("error") == 0 {
 		if g3Drive(fx, role, []*g3Sample{last}, len(path)) == 1 {
 			moved = 1
 		}
 	}
+	// Re-arming: once the conversation has moved on, the timer of the state just left must be
+	// gone.  Wait until well after its deadline and look for a timeout that fired earlier than
+	// any timer armed by the move could (judged on event timestamps, not on how late we wake up).
+	staleCheck := moved == 1 && pct <= 50 && armedNow
+	var movedAt time.Time
+	if staleCheck {
+		ev, _ = fx.snapshot()
+		movedAt = ev[lastStateIdx(ev)].At
+		if d := time.Until(t0.Add(armedDur * 13 / 10)); d > 0 {
+			fx.waitFor(d, hasErr)
+		}
+	}
 	ev, _ = fx.snapshot()
 	cls := "none"
+	var errAt time.Time
 	for _, x := range ev {
 		if x.Kind == "error" {
 			cls = g3ErrClass(x.Data)
 			if cls != "timeout" {
 				cls = "other"
 			}
+			errAt = x.At
 			break
 		}
 	}
-	return fmt.Sprintf("err=%s armed=%d moved=%d", cls, armed, moved)
+	armed := 0
+	for i := entryIdx + 1; i < len(ev); i++ {
+		if ev[i].Kind == "state" {
+			break
+		}
+		if ev[i].Kind == "arm" {
+			armed = 1
+		}
+	}
+	// A timer that fired no earlier than its (scaled) timeout after the state was entered,
+	// in a run that was meant to move well before that, only shows that the harness was too
+	// slow: not judged, repeated with a longer timeout.  (A timer firing EARLIER than its
+	// timeout is reported.)
+	if staleCheck && cls == "timeout" {
+		// a timeout after the move: legitimate only if it belongs to a timer armed by the move
+		// (no earlier than that timer's own timeout after the move)
+		movedIdx := lastStateIdx(ev)
+		legit := false
+		for i := movedIdx + 1; i < len(ev); i++ {
+			if ev[i].Kind == "arm" && errAt.Sub(movedAt) >= time.Duration(ev[i].B)*95/100 {
+				legit = true
+			}
+		}
+		if legit {
+			cls = "none"
+		}
+	} else if pct <= 50 && cls == "timeout" && armed == 1 && errAt.Sub(t0) >= armedDur*95/100 {
+		return "", false
+	}
+	return fmt.Sprintf("err=%s armed=%d moved=%d", cls, armed, moved), true
 }
 
 func genC14(r *Rand, n int, tier string, emit func(string)) {
